@@ -778,6 +778,13 @@ class Interp:
             ln = self.tlen(st, tg)
             esz = a[2] if len(a) > 2 else None
             return ("bytelen", ln)
+        if op == "Not" and a[0] == "int":
+            # bitwise complement of a w-bit unsigned value:  !x = (2^w - 1) - x  (mod 2^w)
+            w = a[1][1]
+            return vint(T.isub(T.iconst(w, (1 << w) - 1), a[1]))
+        if op == "Neg" and a[0] == "int":
+            w = a[1][1]
+            return vint(T.isub(T.iconst(w, 0), a[1]))
         raise Undecided("unop %s on %s" % (op, a[0]))
 
     # ------------------------------------------------------------ execution
